@@ -6,7 +6,7 @@ from core import vloop
 from e2e import common, run_e2e, runner, scenario, upstream
 
 EXPECTED = ["C02_repo_result_iff", "C02_exit_iff", "C02_failed_no_publish", "C02_repos_independent",
-            "C02_download_keeps_names", "C02_optional_never_fails"]
+            "C02_download_keeps_names", "C02_optional_never_fails", "C02_failed_run_keeps_tree"]
 LEVEL = "proof"
 RULE = ("history = a fault-free run against upstream V1 (published state) followed by a run against V2 = evolve(V1) "
         "(packages added/removed/upgraded, by-hash/compressions/flavours changed) with a fault-plan class per repository: "
